@@ -176,7 +176,8 @@ class Cas:
 
 def check(run: Run) -> None:
     res = Resolver(run.project)
-    installs = [i for i in install_functions(run, res) if i.replace is not None and i.mkstemp is not None]
+    all_installs = [i for i in install_functions(run, res) if i.replace is not None]
+    installs = [i for i in all_installs if i.mkstemp is not None and i.tmp is not None]
     run.extra["install_functions"] = [i.fa.fi.fqn for i in installs]
     run.rule("R17.1", "entry compare: every path from the function entry to the first mutating filesystem call passes `hash(read(target)) != base_hash -> error` (or leaves a base_hash guard because base_hash is falsy)", 2)
     run.rule("R17.2", "pre-replace recompare: every path mkstemp -> os.replace passes a second compare on text re-read after mkstemp, and nothing is called between that compare and the replace", 2)
@@ -187,8 +188,15 @@ def check(run: Run) -> None:
     run.rule("R17.7", "critical section: compare -> replace is enclosed by an inter-process lock (flock/lockf/O_EXCL lock file)", 2)
     run.rule("R17.8", "a call that returns status=error leaves the filesystem as it was: no error return is reachable after a mutation that is not undone", 2)
     run.assume("hashing helper names end in compute_hash and are the same function used for canonical_hash (checked in C16 R16.7)")
-    if len(installs) < 2:
-        raise AnalysisError("fewer than 2 install functions with mkstemp+replace found")
+    run.rule("R17.9", "writers never share a temp file: the source of every os.replace is the private path returned by tempfile.mkstemp", 2)
+    for i in all_installs:
+        fi0 = i.fa.fi
+        ok = i.mkstemp is not None and i.tmp is not None and len(i.replace.call.args) >= 1 and is_name(i.replace.call.args[0], i.tmp)
+        run.instance("R17.9", f"{fi0.module.relpath}:{i.replace.call.lineno}", f"{fi0.qualname}: `{norm(i.replace.call)}` renames the mkstemp path", ok=ok)
+        if not ok:
+            run.violation("R17.9", fi0.module, fi0.qualname, i.replace.call, "the file renamed onto the target is not a private mkstemp file: two writers can share (and overwrite) the same temp path, so a writer whose compare passed may install the other writer's bytes")
+    if len(all_installs) < 2:
+        raise AnalysisError("fewer than 2 install functions (functions that rename onto a target) found")
 
     for inst in installs:
         cas = Cas(inst, res)
